@@ -1,6 +1,12 @@
 import PysnarkModel.Lemmas.Array
 import PysnarkModel.Gen.Api
 import PysnarkModel.Lemmas.OblVal
+import PysnarkModel.Lemmas.Array2DSound
+import PysnarkModel.Lemmas.Array2DObl
+import PysnarkModel.Lemmas.Array2DHist
+import PysnarkModel.Lemmas.Array2DPure
+import PysnarkModel.Lemmas.Array2DInvHist
+import PysnarkModel.Lemmas.Array2DOblHist
 /-!
 # C15 — secret-index array access reads and writes exactly one element
 
@@ -131,5 +137,295 @@ Python would prefer over the `__add__` the model knows) or removed from it chang
 fails: the tie is then broken by construction and the check runs its extended search. -/
 theorem C15_api_surface :
     Gen.api_array = ["Array.__init__", "Array.__repr__", "Array.__getitem__", "Array.__setitem__", "Array.__sub__", "Array.__add__", "Array.__rmul__", "Array.__if_then_else__", "Array.assert_eq", "Array.joined", "ArrayRow.__init__", "ArrayRow.__setitem__"] := rfl
+
+/-! # Two-dimensional access (`a[i, j]`, `a[i][j]`, `ArrayRow`, rows as objects)
+
+`Model/Array2D.lean` transcribes `Array.__getitem__/__setitem__` for arrays whose elements are `Array`s (tuple
+indices with plain or secret components, the write-back `self[item[0]] = it`, the read-only `ArrayRow`, rows as
+objects); `Spec/Array2D.lean` is the reference: nested Python lists of integers.  Matrices are rectangular (all rows of
+length `w`) with plain-int or `LinComb` elements (`A2.NumRow`).
+
+* `C15_read2` / `C15_write2`: an accepted `a[i,j]` / `a[i,j] = v` (each component plain or secret, error checks on)
+  returns / leaves exactly what `m[i][j]` / `m[i][j] = v` gives on the list of lists `A2.imat rows`; the corollaries
+  `C15_write2_exact` spell out "that element replaced, every other element and the shape unchanged".
+* `C15_row_read`: a row read at a secret index is that row, element by element.
+* `C15_history2`: every history of events (index objects created once and reused, row handles, copies, element reads
+  and writes through the matrix / a handle / a plain-index inner row, row stores, gathers, reads inside a taken or
+  not-taken branch) that the model completes is completed by the nested-list semantics with the same matrix and the
+  same values read; `C15_history2_every_step`: after every event; `C15_history2_lists`: for histories of element
+  accesses the reference is a function on `List (List Int)` alone; `C15_history2_inv`: along every history all emitted
+  constraints hold on the recorded witness and all stored values are coherent with their wire expressions.
+* `C15_oob2_raises`, `C15_oob2_unsat`, `C15_oblivious2`: the two-dimensional forms of the out-of-range and
+  obliviousness statements. -/
+
+open A2 in
+/-- **`a[i, j]`** — every matrix contents and shape, every index pair, each component a plain int or a secret:
+the value read is the element at `(i, j)` of the list of lists (so both components are in range), and guard, error
+mode, `ONE` are left as they were -/
+theorem C15_read2 {rows : List (List Val)} {i j r : Val} {s s' : St} {w : Nat}
+    (hi : s.ignoreErrors = false) (hn : ∀ row ∈ rows, NumRow row) (hw : ∀ row ∈ rows, row.length = w)
+    (h : matGet rows i j s = .ok (r, s')) :
+    pGet (imat rows) (absIdx i) (absIdx j) = .ok r.ival ∧ r.isNum = true ∧ Same s s' :=
+  matGet_ref hi hn hw h
+
+open A2 in
+/-- **`a[i, j] = v`**: the matrix afterwards is `m[i][j] = v` on the list of lists; rows stay numeric of length `w` -/
+theorem C15_write2 {rows res : List (List Val)} {i j v : Val} {s s' : St} {w : Nat}
+    (hi : s.ignoreErrors = false) (hn : ∀ row ∈ rows, NumRow row) (hw : ∀ row ∈ rows, row.length = w)
+    (hv : v.isNum = true) (h : matSet rows i j v s = .ok (res, s')) :
+    pSet (imat rows) (absIdx i) (absIdx j) v.ival = .ok (imat res) ∧ (∀ row ∈ res, NumRow row) ∧
+    (∀ row ∈ res, row.length = w) ∧ Same s s' :=
+  matSet_ref hi hn hw hv h
+
+open A2 in
+/-- what `m[i][j] = x` means on a list of lists: positions `a`, `b` selected by the two components are in range; the
+result has the same number of rows, row `a` is the old row with position `b` replaced by `x` (same length), every other
+row is untouched -/
+theorem C15_write2_exact {m m' : List (List Int)} {i j : SIx} {x : Int} (h : pSet m i j x = .ok m') :
+    ∃ (a b : Nat) (ha : a < m.length), pos m.length i = .ok a ∧ pos m[a].length j = .ok b ∧ b < m[a].length ∧
+      m'.length = m.length ∧
+      ∀ (k : Nat) (hk : k < m.length) (hk' : k < m'.length),
+        m'[k] = if k = a then m[a].set b x else m[k] := by
+  unfold pSet at h
+  cases ha : pos m.length i with
+  | error e => simp [ha, bind, Except.bind] at h
+  | ok a =>
+    have hlt := pos_lt ha
+    simp only [ha, bind, Except.bind, nth_ok hlt] at h
+    cases hb : pos m[a].length j with
+    | error e => simp [hb] at h
+    | ok b =>
+      simp only [hb, pure, Except.pure, Except.ok.injEq] at h
+      subst h
+      refine ⟨a, b, hlt, rfl, hb, pos_lt hb, by simp, ?_⟩
+      intro k hk hk'
+      simp only [List.getElem_set]
+      by_cases e : a = k
+      · subst e; simp
+      · have e' : ¬ k = a := fun x => e x.symm
+        simp [e, e']
+
+open A2 in
+/-- **a row read at a secret index equals that row element-wise** (the contents of the `ArrayRow` returned by `a[i]`) -/
+theorem C15_row_read {rows : List (List Val)} {it : LinComb} {r : List Val} {s s' : St} {w : Nat}
+    (hi : s.ignoreErrors = false) (hn : ∀ row ∈ rows, NumRow row) (hw : ∀ row ∈ rows, row.length = w)
+    (h : rowRead rows it s = .ok (r, s')) :
+    ∃ (hj : it.value.toNat < rows.length), 0 ≤ it.value ∧ it.value < rows.length ∧ r.length = w ∧
+      (∀ (b : Nat) (h1 : b < r.length) (h2 : b < rows[it.value.toNat].length),
+        (∃ y, r[b] = .lc y) ∧ r[b].ival = rows[it.value.toNat][b].ival) ∧ Same s s' :=
+  rowRead_ref hi hn hw h
+
+open A2 in
+/-- **histories**: for every rectangular matrix `m` (secret or constant elements) and every sequence of events `es`, if
+the model builds the matrix and completes the history (error checks on, no guard active) then the nested-list semantics
+completes it from `sinit m` and ends in the abstraction of the model's final state: same row objects, same matrix
+(`Mat.matrix` = `SMat.matrix`), same values read -/
+theorem C15_history2 {secret : Bool} {w : Nat} {m : List (List Int)} {es : List A2.Ev} {a' : Mat} {s s' : St}
+    (hi : s.ignoreErrors = false) (hg : s.guard = none) (hw : ∀ r ∈ m, r.length = w) (hev : ∀ e ∈ es, e.okWidth w)
+    (h : (do let a ← init secret m; A2.run es a) s = .ok (a', s')) :
+    srun es (sinit m) = .ok (abs a') ∧ a'.matrix = (abs a').matrix ∧ WF w a' ∧
+    s'.ignoreErrors = false ∧ s'.guard = none := by
+  obtain ⟨a, s1, h1, h2⟩ := bind_ok.mp h
+  obtain ⟨e0, hwf, sm⟩ := init_sim hw h1
+  obtain ⟨e1, hwf', hi', hg'⟩ := run_sim es (sm.ign_false hi) (sm.guard_none hg) hwf hev h2
+  exact ⟨e0 ▸ e1, (abs_matrix a').symm, hwf', hi', hg'⟩
+
+open A2 in
+/-- **after every event**: a history the model completes is completed up to every intermediate point, and at every
+such point the model's matrix is the matrix of the nested-list semantics -/
+theorem C15_history2_every_step {secret : Bool} {w : Nat} {m : List (List Int)} {es : List A2.Ev} {a' : Mat} {s s' : St}
+    (hi : s.ignoreErrors = false) (hg : s.guard = none) (hw : ∀ r ∈ m, r.length = w) (hev : ∀ e ∈ es, e.okWidth w)
+    (h : (do let a ← init secret m; A2.run es a) s = .ok (a', s')) (k : Nat) :
+    ∃ ak sk, (do let a ← init secret m; A2.run (es.take k) a) s = .ok (ak, sk) ∧
+      srun (es.take k) (sinit m) = .ok (abs ak) ∧ ak.matrix = (abs ak).matrix := by
+  obtain ⟨a, s1, h1, h2⟩ := bind_ok.mp h
+  rw [← List.take_append_drop k es] at h2
+  obtain ⟨ak, sk, h3, -⟩ := A2.run_append _ _ h2
+  have hk : (do let a ← init secret m; A2.run (es.take k) a) s = .ok (ak, sk) := bind_ok.mpr ⟨a, s1, h1, h3⟩
+  obtain ⟨e1, e2, -⟩ := C15_history2 hi hg hw (fun e he => hev e (List.mem_of_mem_take he)) hk
+  exact ⟨ak, sk, hk, e1, e2⟩
+
+open A2 in
+/-- **histories of element accesses, against `List (List Int)` alone**: for `m[i,j]`, `m[i][j]`, reads in a branch and
+`m[i,j] = x` (index objects reused at will) the reference needs no notion of object: the model's final matrix, index
+objects and values read are those of `prun` on the plain list of lists -/
+theorem C15_history2_lists {secret : Bool} {w : Nat} {m : List (List Int)} {es : List A2.Ev} {a' : Mat} {s s' : St}
+    (hi : s.ignoreErrors = false) (hg : s.guard = none) (hw : ∀ r ∈ m, r.length = w)
+    (hd : ∀ e ∈ es, e.direct = true)
+    (h : (do let a ← init secret m; A2.run es a) s = .ok (a', s')) :
+    prun es ⟨m, [], []⟩ = .ok (proj (abs a')) ∧ (proj (abs a')).m = a'.matrix := by
+  have hev : ∀ e ∈ es, e.okWidth w := by
+    intro e he
+    have := hd e he
+    cases e <;> trivial
+  obtain ⟨e1, e2, -⟩ := C15_history2 hi hg hw hev h
+  have := direct_run es (sinit_dist m) hd
+  rw [e1] at this
+  have hp : proj (sinit m) = ⟨m, [], []⟩ := by
+    simp only [proj, sinit_matrix]
+    rfl
+  rw [hp] at this
+  exact ⟨this.symm, e2.symm⟩
+
+open A2 in
+/-- **satisfaction and coherence along every history**: from a state satisfying the tracer invariant, after the matrix
+is built and any history has run, every constraint emitted holds on the recorded witness (`Inv`) and every element of
+every row, every index object and every value read is coherent with its wire expression (`GoodMat`) -/
+theorem C15_history2_inv {secret : Bool} {m : List (List Int)} {es : List A2.Ev} {a' : Mat} {s s' : St}
+    (hinv : Inv s) (hP : PrimeP s) (h : (do let a ← init secret m; A2.run es a) s = .ok (a', s')) :
+    s.le s' ∧ Inv s' ∧ GoodMat s' a' := by
+  obtain ⟨a, s1, h1, h2⟩ := bind_ok.mp h
+  obtain ⟨le1, -, inv1, g1⟩ := init_inv hinv h1
+  obtain ⟨le2, inv2, g2⟩ := A2.run_inv es inv1 (hP.mono le1) g1 h2
+  exact ⟨le1.trans le2, inv2, g2⟩
+
+open A2 in
+/-- **an out-of-range component raises `IndexError`** (error checks on): a secret row component outside the matrix; a
+secret column component outside the row that the first component selects — for reads and for writes -/
+theorem C15_oob2_raises {rows : List (List Val)} {i j v : Val} {it jt : LinComb} {r0 : List Val} {s s1 : St} :
+    (s.ignoreErrors = false → (it.value < 0 ∨ it.value ≥ rows.length) →
+      matGet rows (.lc it) j s = .error .index ∧ matSet rows (.lc it) j v s = .error .index) ∧
+    (rowGet rows i s = .ok (r0, s1) → s1.ignoreErrors = false → (jt.value < 0 ∨ jt.value ≥ r0.length) →
+      matGet rows i (.lc jt) s = .error .index ∧ matSet rows i (.lc jt) v s = .error .index) :=
+  ⟨fun hi h => mat_oob_row hi h, fun h1 hi h => mat_oob_col h1 hi h⟩
+
+section sound2
+variable {p : ℕ} [Fact p.Prime] {wf : Wire → Int}
+
+open A2 in
+/-- **an out-of-range component cannot be proven** — error checks on or OFF: for any assignment `wf` (with
+`wf one = 1`) satisfying the constraints that the access emitted, a secret row component evaluates to a row position and
+a secret column component to a column position; reads and writes.  (With checks off an out-of-range access completes,
+but the emitted system then has no satisfying assignment with that index value: see the example below.) -/
+theorem C15_oob2_unsat {rows res : List (List Val)} {i j r v : Val} {it jt : LinComb} {s s' : St} {w : Nat}
+    (hp : s.p = p) (hg : s.guard = none) (hone : s.one = oneSafe) (hit : it.lc.WF) (hjt : jt.lc.WF)
+    (hn : ∀ row ∈ rows, NumRow row) (hw : ∀ row ∈ rows, row.length = w) (hv : v.isNum = true) (h1 : wf .one = 1)
+    (hsat : NewSat s s' wf) :
+    (matGet rows (.lc it) j s = .ok (r, s') → ∃ a : Nat, a < rows.length ∧ ev p wf it.lc = (a : ZMod p)) ∧
+    (matGet rows i (.lc jt) s = .ok (r, s') → ∃ b : Nat, b < w ∧ ev p wf jt.lc = (b : ZMod p)) ∧
+    (matSet rows (.lc it) j v s = .ok (res, s') → ∃ a : Nat, a < rows.length ∧ ev p wf it.lc = (a : ZMod p)) ∧
+    (matSet rows i (.lc jt) v s = .ok (res, s') → ∃ b : Nat, b < w ∧ ev p wf jt.lc = (b : ZMod p)) :=
+  ⟨fun h => matGet_row_sound hp hg hone hit hn hw h1 h hsat,
+   fun h => matGet_col_sound hp hg hone hjt hn hw h1 h hsat,
+   fun h => matSet_row_sound hp hg hone hit hn hw hv h1 h hsat,
+   fun h => matSet_col_sound hp hg hone hjt hn hw hv h1 h hsat⟩
+
+end sound2
+
+open A2 in
+/-- **obliviousness for index pairs**: two accesses to matrices of the same shape with index components of the same
+kind (secret components: ANY two values; plain components equal), from states of the same shape, emit the same
+constraints and return results of the same shape — `a[i]` at a secret index, `a[i, j]`, `a[i, j] = v` -/
+theorem C15_oblivious2 {rows1 rows2 : List (List Val)} (hrows : MatRel rows1 rows2) {i1 i2 j1 j2 v1 v2 : Val}
+    (hi : ValRel i1 i2) (hj : ValRel j1 j2) (hv : ValRel v1 v2) {it1 it2 : LinComb} (hit : lcEq it1 it2) :
+    Obl RowRel (rowRead rows1 it1) (rowRead rows2 it2) ∧
+    Obl ValRel (matGet rows1 i1 j1) (matGet rows2 i2 j2) ∧
+    Obl MatRel (matSet rows1 i1 j1 v1) (matSet rows2 i2 j2 v2) :=
+  ⟨rowRead_obl hrows hit, matGet_obl hrows hi hj, matSet_obl hrows hi hj hv⟩
+
+open A2 in
+/-- **obliviousness along histories**: two histories of the same form (the same events on the same names, plain indices
+and written constants equal; secret index values, branch conditions and secret matrix contents ARBITRARY) on matrices
+of the same dimensions, from states of the same shape: the same wires and the same constraints after the whole
+history, the same object structure, values of the same shape -/
+theorem C15_oblivious2_history (secret : Bool) {m1 m2 : List (List Int)}
+    (hm : Forall2 (Forall2 (fun x y => secret = true ∨ x = y)) m1 m2) {es1 es2 : List A2.Ev}
+    (hes : Forall2 EvRel es1 es2) :
+    Obl MatObjRel (do let a ← init secret m1; A2.run es1 a) (do let a ← init secret m2; A2.run es2 a) :=
+  Obl.bind (init_obl secret hm) (fun _ _ h => run_obl hes h)
+
+/-! ## non-vacuity: the 2×3 matrix `[[1,2,3],[4,5,6]]` of secrets over p = 97 -/
+
+open A2 in
+def exMat2 : M (List (List Val)) := do
+  let a ← init true [[1, 2, 3], [4, 5, 6]]
+  pure a.contents
+
+def satAll2 (s : St) : Bool :=
+  s.cons.all (fun c => (LC.eval s.assign c.1 * LC.eval s.assign c.2.1 - LC.eval s.assign c.2.2) % s.p == 0)
+
+open A2 in
+/-- `a[PrivVal(1), PrivVal(2)]` reads 6; all constraints hold on the recorded witness -/
+example : (match (do let m ← exMat2; let i ← privVal 1; let j ← privVal 2; matGet m (.lc i) (.lc j)) (St.init 97 8 8) with
+    | .ok (r, s1) => r.ival == 6 && satAll2 s1 && s1.cons.length > 0
+    | _ => false) = true := by first | decide +kernel | fail "C15_read2 example"
+
+open A2 in
+/-- `a[PrivVal(0), PrivVal(1)] = 77`: exactly that element replaced -/
+example : (match (do let m ← exMat2; let i ← privVal 0; let j ← privVal 1; matSet m (.lc i) (.lc j) (.int 77)) (St.init 97 8 8) with
+    | .ok (res, s1) => imat res == [[1, 77, 3], [4, 5, 6]] && satAll2 s1
+    | _ => false) = true := by first | decide +kernel | fail "C15_write2 example"
+
+open A2 in
+/-- the row read at the secret index 1 is `[4,5,6]`, element by element -/
+example : (match (do let m ← exMat2; let i ← privVal 1; rowRead m i) (St.init 97 8 8) with
+    | .ok (r, s1) => ivals r == [4, 5, 6] && satAll2 s1
+    | _ => false) = true := by first | decide +kernel | fail "C15_row_read example"
+
+open A2 in
+/-- a history with a reused index object, a plain-index row handle written through, a secret-index snapshot stored at a
+constant position, a tuple write at a secret row, a read in a branch that is not taken with an index outside the array,
+and a gather: the model and the nested lists end in the same state, the matrix is `[[4,12,6],[4,12,6]]` -/
+def exHist2 : List A2.Ev :=
+  [.idx 0 true 1, .row 1 (.p 1), .set1 1 (.s 1) 12, .get2 2 (.n 0) (.p 1), .row 3 (.n 0), .setrow (.p 0) 3,
+   .set2 (.s 1) (.n 0) 12, .bget 4 0 (.s 7) (.p 0), .gather [.n 0, .p 1], .get2 5 (.s 0) (.s 2)]
+
+open A2 in
+example : (match (do let a ← init true [[1, 2, 3], [4, 5, 6]]; A2.run exHist2 a) (St.init 97 8 8) with
+    | .ok (a', s1) => decide (srun exHist2 (sinit [[1, 2, 3], [4, 5, 6]]) = .ok (abs a')) &&
+        a'.matrix == [[4, 12, 6], [4, 12, 6]] && satAll2 s1
+    | _ => false) = true := by first | decide +kernel | fail "C15_history2 example"
+
+open A2 in
+/-- a history of element accesses on plain lists of lists: `m[i1,2] = 9; m[1][i1]; m[0, i1] = 8` -/
+example : (match (do let a ← init false [[1, 2, 3], [4, 5, 6]]
+                     A2.run [.idx 0 true 1, .set2 (.n 0) (.p 2) 9, .getrc 1 (.p 1) (.n 0), .set2 (.p 0) (.n 0) 8] a) (St.init 97 8 8),
+      prun [.idx 0 true 1, .set2 (.n 0) (.p 2) 9, .getrc 1 (.p 1) (.n 0), .set2 (.p 0) (.n 0) 8] ⟨[[1, 2, 3], [4, 5, 6]], [], []⟩ with
+    | .ok (a', _), .ok r => decide (proj (abs a') = r) && r.m == [[1, 8, 3], [4, 5, 9]] && r.vars == [(1, 5)]
+    | _, _ => false) = true := by first | decide +kernel | fail "C15_history2_lists example"
+
+open A2 in
+/-- out-of-range components raise: row index 2 of 2 rows; column index 3 of 3 columns (read and write) -/
+example : (match (do let m ← exMat2; let i ← privVal 2; let j ← privVal 0; matGet m (.lc i) (.lc j)) (St.init 97 8 8),
+      (do let m ← exMat2; let i ← privVal 1; let j ← privVal 3; matSet m (.lc i) (.lc j) (.int 9)) (St.init 97 8 8) with
+    | .error .index, .error .index => true | _, _ => false) = true := by first | decide +kernel | fail "C15_oob2_raises example"
+
+open A2 in
+/-- with error checks off the out-of-range access `a[PrivVal(0), PrivVal(3)]` completes, but the recorded witness
+violates the emitted constraints (the column selectors sum to 0) -/
+example : (match (do let m ← exMat2; let i ← privVal 0; let j ← privVal 3; matGet m (.lc i) (.lc j))
+      { St.init 97 8 8 with ignoreErrors := true } with
+    | .ok (_, s1) => !satAll2 s1
+    | _ => false) = true := by first | decide +kernel | fail "C15_oob2_unsat example"
+
+open A2 in
+/-- two different index pairs: the same constraints, literally -/
+example : (match (do let m ← exMat2; let i ← privVal 0; let j ← privVal 2; matSet m (.lc i) (.lc j) (.int 9)) (St.init 97 8 8),
+      (do let m ← exMat2; let i ← privVal 1; let j ← privVal 0; matSet m (.lc i) (.lc j) (.int 9)) (St.init 97 8 8) with
+    | .ok (_, s1), .ok (_, s2) => decide (s1.cons = s2.cons) && s1.priv.length == s2.priv.length && s1.cons.length > 20
+    | _, _ => false) = true := by first | decide +kernel | fail "C15_oblivious2 example"
+
+open A2 in
+/-- two histories of the same form with other secret indices, another branch condition and other contents: the same
+constraints, literally -/
+example : (match (do let a ← init true [[1, 2, 3], [4, 5, 6]]
+                     A2.run [.idx 0 true 1, .row 1 (.n 0), .set2 (.s 0) (.n 0) 9, .bget 2 1 (.n 0) (.s 2), .setrow (.s 1) 1] a) (St.init 97 8 8),
+      (do let a ← init true [[7, 0, 2], [3, 3, 8]]
+          A2.run [.idx 0 true 2, .row 1 (.n 0), .set2 (.s 1) (.n 0) 9, .bget 2 0 (.n 0) (.s 5), .setrow (.s 0) 1] a)
+        { St.init 97 8 8 with ignoreErrors := true } with
+    | .ok (_, s1), .ok (_, s2) => decide (s1.cons = s2.cons) && s1.priv.length == s2.priv.length && s1.cons.length > 40
+    | _, _ => false) = true := by first | decide +kernel | fail "C15_oblivious2_history example"
+
+open A2 in
+/-- **boundary of `C15_history2` (the hypothesis `Ev.okWidth` is needed): a row of another length stored at a secret
+index** — `m = [[1,2,3],[4,5,6]]; m[PrivVal(1)] = Array([7])`.  On lists of lists the result is `[[1,2,3],[7]]`; the
+model, like the code (`Array.__sub__/__add__` zip their operands), ends with `[[1],[7]]`: EVERY row is cut to the
+length of the stored row, no exception, and all emitted constraints hold on the recorded witness.  Reproduced on the
+code by `harness/props/c15.py` with `VERIF_C15_OTHER_LENGTH_ROWS=1` (finding `C15-row-store-other-length`). -/
+theorem C15_cex_row_store_other_length :
+    (match (do let a ← init true [[1, 2, 3], [4, 5, 6]]; A2.run [.newrow 1 [7], .setrow (.s 1) 1] a) (St.init 97 8 8),
+        srun [.newrow 1 [7], .setrow (.s 1) 1] (sinit [[1, 2, 3], [4, 5, 6]]) with
+      | .ok (a', s1), .ok r => a'.matrix == [[1], [7]] && r.matrix == [[1, 2, 3], [7]] && satAll2 s1
+      | _, _ => false) = true := by first | decide +kernel | fail "C15_cex_row_store_other_length"
 
 end Pysnark
